@@ -94,6 +94,30 @@ pub(crate) fn any_peripheral<'a>(
     }
 }
 
+/// Peripheral for the DP master harnesses: only what the master's slot logic depends on is
+/// symbolic (address, bring-up state, retry counter, frame count bit, diagnostics flags, whether
+/// parameters/configuration are present); the rest is fixed.
+pub(crate) fn light_peripheral<'a>(
+    pi_i: &'a mut [u8],
+    pi_q: &'a mut [u8],
+    user_parameters: Option<&'a [u8]>,
+    config: Option<&'a [u8]>,
+) -> Peripheral<'a> {
+    Peripheral {
+        address: kani::any(),
+        state: any_pstate(),
+        retry_count: kani::any(),
+        fcb: any_live_fcb(),
+        pi_i: managed::ManagedSlice::Borrowed(pi_i),
+        pi_q: managed::ManagedSlice::Borrowed(pi_q),
+        diag: None,
+        ext_diag: Default::default(),
+        diag_needed: kani::any(),
+        diag_requested: kani::any(),
+        options: PeripheralOptions { user_parameters, config, ..Default::default() },
+    }
+}
+
 /// Representation invariant of a peripheral (inductive: holds for `Peripheral::new`, preserved by
 /// every `transmit_telegram` / `receive_reply` / `request_diagnostics`; proved by the step
 /// harnesses below, which assume it before and assert it after).
@@ -276,7 +300,11 @@ fn transmit_step<const U: usize, const C: usize, const Q: usize, const B: usize>
         assert!(r.expects_reply() == Some(addr), "C03/wire: the request expects a reply from the peripheral");
         let mut i = 0;
         while i < elen {
-            assert!(buf[i] == expect[i], "C03/wire: request bytes equal the reference frame (SAPs, function code, FCB/FCV, PDU)");
+            if want == ReqKind::DataExchange {
+                assert!(buf[i] == expect[i], "C04/dx-request: a Data_Exchange request is the reference frame carrying exactly the current output image (all zeros in Clear), on first transmission and on every retransmission");
+            } else {
+                assert!(buf[i] == expect[i], "C03/wire: request bytes equal the reference frame (SAPs, function code, FCB/FCV, PDU)");
+            }
             i += 1;
         }
         if want == ReqKind::DataExchange {
@@ -499,7 +527,7 @@ fn receive_step<const I: usize, const D: usize, const P: usize>() {
                 assert!(raw[i] == pdu_store[6 + i], "C17/store: stored extended diagnostics equal the reply's tail");
                 i += 1;
             }
-            kani::cover!(plen == P && plen - 6 == dcap, "cover: exactly fitting extended diagnostics");
+            kani::cover!(dcap > 0 && plen - 6 == dcap, "cover: exactly fitting extended diagnostics");
         } else {
             assert!(post_ext_len == pre_ext_len, "C17/store: extended diagnostics that are absent or do not fit leave the stored ones unchanged");
             kani::cover!(flags & EXT_DIAG != 0 && dcap > 0 && plen - 6 > dcap, "cover: oversize extended diagnostics ignored");
